@@ -168,11 +168,10 @@ func Modf(f float64) (float64, float64) {
 	if f == posInf || f == negInf {
 		return f, nan
 	}
-	if 1/f == negInf {
-		return f, f
-	}
-	frac := Mod(f, 1)
-	return f - frac, frac
+	// The integer part is f rounded toward zero and both parts carry the sign
+	// of f, also when they are zero.
+	intPart := Trunc(f)
+	return intPart, Copysign(f-intPart, f)
 }
 
 func NaN() float64 {
@@ -219,10 +218,9 @@ func Tanh(x float64) float64 {
 }
 
 func Trunc(x float64) float64 {
-	if x == posInf || x == negInf || x != x || 1/x == negInf {
-		return x
-	}
-	return Copysign(float64(int(x)), x)
+	// Math.trunc rounds toward zero for the whole float64 range and preserves
+	// the sign of zero, infinities and NaN.
+	return math.Call("trunc", x).Float()
 }
 
 var buf struct {
